@@ -3,7 +3,7 @@ import copy
 
 from hypothesis import strategies as st
 
-from pbt import gen, tiling
+from pbt import engine, gen, tiling
 from pbt.engine import Outcome
 from pbt.harness import KARY, PARTITIONS, RngScript, Session, algo_label, leaves, rng_context
 
@@ -28,7 +28,7 @@ MAX_NODES = 3000
 @st.composite
 def direct_cases(draw, tier):
     maxd = 4
-    dom = draw(gen.domains(max_d=maxd, extreme=True))
+    dom = draw(gen.domains(max_d=maxd, extreme=True, bigint=True))
     d = len(dom)
     cls = draw(st.sampled_from(sorted(PARTITIONS)))
     pspec = {"cls": cls}
@@ -144,8 +144,31 @@ def check_algo(case):
         return Outcome(nontrivial=len(s.split_log) >= 2, classes=classes, rounds=len(s.split_log))
 
 
+def nonrepresentable_int_bound(case):
+    """Guard of the open finding D12: some bound is a Python int that no double represents exactly."""
+    for iv in case["domain"]:
+        for b in iv:
+            if isinstance(b, int) and not isinstance(b, bool):
+                try:
+                    if int(float(b)) != b:
+                        return True
+                except OverflowError:
+                    return True
+    return False
+
+
+D12_CLAUSES = ("containment", "tiling", "centre", "leaves-tile-root", "child-box", "equal-size")
+
+
 def check_case(case):
-    return check_direct(case) if "ops" in case else check_algo(case)
+    out = check_direct(case) if "ops" in case else check_algo(case)
+    if out.violation and out.violation["clause"] in D12_CLAUSES and nonrepresentable_int_bound(case):
+        if any(f["id"] == "D12" and f.get("status") == "open" for f in engine.load_known()):
+            out.known = "D12"
+            out.classes.append("known:D12")
+    elif nonrepresentable_int_bound(case):
+        out.classes.append("bigint-bound-held")
+    return out
 
 
 def simplify(case):
